@@ -201,7 +201,7 @@ func (b *batch) link(tc *tcase) {
 	case "abs":
 		err = os.Symlink(target, b.file(tc))
 	case "rel": // ln -s ../shared/page.templ page.templ
-		rel, _ := filepath.Rel(b.dir, target)
+		rel, _ := filepath.Rel(b.pkg.Dir, target) // resolved from the REAL directory holding the link
 		err = os.Symlink(rel, b.file(tc))
 	case "chain":
 		_ = os.Symlink(fileBase(tc)+".real.templ", target)
@@ -318,6 +318,9 @@ func (b *batch) run() {
 		tc.alive = true
 		tc.cls = make([]class, len(tc.Vers))
 		byFile[fileBase(tc)] = tc
+		if tc.Link != "" {
+			b.link(tc) // every later write goes THROUGH the link, as an editor saving the shared file does
+		}
 		if len(tc.Vers)-1 > maxStep {
 			maxStep = len(tc.Vers) - 1
 		}
@@ -372,11 +375,10 @@ func (b *batch) run() {
 				defer wg.Done()
 				defer func() { <-sem }()
 				f := b.file(tc)
-				if k == 0 && tc.Link != "" {
-					b.link(tc) // writes below go THROUGH the link, as an editor saving the shared file does
-				}
 				if err := os.WriteFile(f, []byte(tc.Vers[k]), 0o644); err != nil {
-					core.Infra("write: %v", err)
+					c.Inconclusive(fmt.Sprintf("cannot write %s (%s): %v", tc.Name, tc.Label, err))
+					b.drop(tc)
+					return
 				}
 				_ = os.Chtimes(f, stamp, stamp)
 				op := fsnotify.Write
@@ -600,7 +602,10 @@ func (b *batch) violate2(tc *tcase, j, k int, nocompile bool, why string) {
 	if tc.failed == nil {
 		tc.failed = map[int]bool{}
 	}
-	if k-j == 1 {
+	if tc.Group == "paths" {
+		tc.failed[k] = true
+		key = "clause2 paths " + tc.Label // canonical: the path form, not the (fixed) edit
+	} else if k-j == 1 {
 		tc.failed[k] = true
 		key = tc.Kinds[k] + suffix
 		if tc.Group != "matrix" && !b.matrixFailed[key] {
@@ -694,6 +699,43 @@ func hostileClass(s string) []string {
 
 // parses: workload filter (not an oracle): the source is accepted by the
 // parser and its generated code is gofmt-able, i.e. the watcher would accept it.
+// pathCases: programs whose .templ path takes a form on which the watcher
+// (GetDevModeTextFileName(<x>.templ)) and the running program
+// (GetDevModeTextFileName(<x>_templ.go)) must still compute the same text
+// file: file-level symlinks (absolute, relative, chained, into a symlinked
+// directory) and file names with spaces, dots, non-ASCII, upper case.
+// Each has a text-only edit (clause 2) after the base version (clause 1).
+func pathCases(c *core.Ctx, name func(string) string, pkgForm string) []*tcase {
+	var out []*tcase
+	mk := func(link, file string) {
+		n := name("N")
+		body := func(v int) []*node {
+			return []*node{
+				{K: "elem", S: "div", Attrs: []attr{{K: "const", Name: "class", Val: "k", Q: `"`}}, Kids: []*node{{K: "text", S: fmt.Sprintf("text v%d ", v)}, {K: "expr", S: "a.S"}}},
+				{K: "elem", S: "p", Kids: []*node{{K: "text", S: strings.Repeat("more ", v+1)}, {K: "expr", S: "a.T"}}, Sep: "\n"},
+			}
+		}
+		label := "file-name " + core.Q(file)
+		if link != "" {
+			label = "symlinked-templ " + link
+		}
+		if pkgForm != "" {
+			label += " in " + pkgForm
+		}
+		c.Add("path_form_programs", 1)
+		out = append(out, &tcase{Name: n, Group: "paths", Label: label, File: file, Link: link, PkgForm: pkgForm,
+			Vers: []string{source(n, body(0)), source(n, body(1)), source(n, body(2))}, Kinds: []string{"", "text:edit", "text:edit"}})
+	}
+	for _, l := range []string{"abs", "rel", "chain", "into-linked-dir"} {
+		mk(l, "")
+	}
+	for _, f := range []string{"sp ace 1", "dots.v1.x", "ünï-日本", "Mixed_Case", "plus+eq=1", "x_linux"} {
+		mk("", f)
+	}
+	mk("rel", "linked sp ace.v2")
+	return out
+}
+
 // b64like / svgPath: deterministic large static payloads without any templ metacharacter.
 func b64like(n int) string {
 	const al = "ABCDEFGHIJKLMNOPQRSTUVWXYZabcdefghijklmnopqrstuvwxyz0123456789+/"
@@ -752,7 +794,7 @@ func Run(c *core.Ctx) {
 			c.NontrivialN(1)
 			return
 		}
-		b := &batch{c: c, cases: []*tcase{&tc}, txtRoot: txtRoot, matrixFailed: map[string]bool{}}
+		b := &batch{c: c, cases: []*tcase{&tc}, txtRoot: txtRoot, matrixFailed: map[string]bool{}, viaLink: tc.PkgForm != ""}
 		if tc.Group != "matrix" { // key by kind as in the original run when the kind is a matrix kind
 			for _, k := range tc.Kinds {
 				b.matrixFailed[k], b.matrixFailed[k+" (new code does not compile)"] = true, true
@@ -792,6 +834,7 @@ func Run(c *core.Ctx) {
 					}
 				}
 			}
+			cases = append(cases, pathCases(c, name, "")...)
 			// ---- structure witnesses: same expression sequence and literal count, different control flow
 			bx := func() *node { return &node{K: "elem", S: "b", Kids: []*node{{K: "text", S: "x"}}} }
 			iy := func() *node { return &node{K: "elem", S: "i", Kids: []*node{{K: "text", S: "y"}}} }
@@ -944,6 +987,23 @@ func Run(c *core.Ctx) {
 		b := &batch{c: c, cases: cases, txtRoot: txtRoot, matrixFailed: matrixFailed}
 		c.Add("files", len(cases))
 		b.run()
+		if bi == 0 {
+			// ---- the same flow once more on a package whose directory is reached through a
+			// symlinked path component, with a RELATIVE root given to the handler
+			const form = "via-symlinked-dir+relative-root"
+			id = 0
+			lc := pathCases(c, name, form)
+			for _, tc := range cases {
+				if tc.Group == "random" && len(tc.Vers) <= 3 && len(lc) < 24 {
+					cp := &tcase{Name: tc.Name, Group: tc.Group, Vers: tc.Vers, Kinds: tc.Kinds, PkgForm: form}
+					lc = append(lc, cp)
+					c.Add("path_form_programs", 1)
+				}
+			}
+			lb := &batch{c: c, cases: lc, txtRoot: txtRoot, matrixFailed: matrixFailed, viaLink: true}
+			c.Add("files", len(lc))
+			lb.run()
+		}
 	}
 	flushViolations(c)
 	var mf []string
